@@ -323,16 +323,10 @@ func vp_C01_canon() {
 		return
 	}
 	vpAssume(refOK && !dup)
-	// KF-C01-1: CompactJSON drops every '-' that is followed by '0' ("-0.5", "1e-05", "0E-0"), not only the token "-0"
-	kf1 := false
-	for i := 0; i+1 < len(inCopy); i++ {
-		if inCopy[i] == '-' && inCopy[i+1] == '0' {
-			kf1 = true // (the token "-0" itself is handled correctly; every other "-0..." loses its sign)
-		}
-	}
-	vpAssertKF("equals-reference", bytes.Equal(out, ref), "KF-C01-1", kf1)
+	// (fixed: KF-C01-1 - CompactJSON dropped every '-' followed by '0', not only the token "-0")
+	vpAssert("equals-reference", bytes.Equal(out, ref))
 	out2, err2 := CanonicalJSON(append([]byte{}, out...))
-	vpAssertKF("idempotent", err2 == nil && bytes.Equal(out2, out), "KF-C01-1", kf1)
+	vpAssert("idempotent", err2 == nil && bytes.Equal(out2, out))
 	vpReach("accepted", true)
 	vpReach("object", len(out) > 0 && out[0] == '{')
 }
